@@ -1,13 +1,15 @@
 (* Properties_C15.v -- property C15: Poll method, interrupted waits, missing syscalls do not change behaviour.  Statements only.
    Every theorem quantifies over ALL well-formed scenarios: all handler scripts, all kernel behaviours the scenario
    language can express, all four poll methods (sc_backend 0..3), all fault sets (EINTR at the k-th wait / k-th
-   epoll_ctl for any k, epoll_pwait2 / timerfd / ppoll / eventfd2 / eventfd missing from their first call, EMFILE under
-   the poll methods), any wait limit.  Because `wf_scenario` quantifies over the method and the fault set, every
+   epoll_ctl for any k, epoll_pwait2 / timerfd / ppoll / eventfd2 / eventfd missing from their first call, eventfd2 /
+   eventfd also failing from the k-th creation on for any k (faults.efd_ok: eventfd- and pipe-backed raw events and
+   kick descriptors side by side), EMFILE under the poll methods), any wait limit.  Because `wf_scenario` quantifies over the method and the fault set, every
    clause below is a statement about every method and every fault sequence.
    The full statement on the core model: `mon_all (run_scenario sc) = true /\ mon_guard sc (run_scenario sc) = true`. *)
 From Coq Require Import List ZArith Bool Lia.
 From Ivv Require Import Core.Kernel Core.CoreTypes Core.CoreFd Core.CoreModel Core.Monitors Core.GuardMon Core.CoreSpec
   Core.CoreRel Core.CoreCodes Core.CorePhase2Fd Core.CorePhase2Ei Core.CorePhase2GuardAll Core.CoreAll Core.CoreExamples.
+From Ivv Require Core.CoreInv Core.CorePhase2TimeC09.
 Import ListNotations.
 Local Open Scope Z_scope.
 
@@ -53,4 +55,72 @@ Proof.
   destruct F as (F1 & F2 & F3 & F4 & F5 & F6).
   exact (conj (ex_all_wf be Hb) (conj R1 (conj R5 (conj R10 (conj (ex_all_f_wf be Hb)
           (conj F1 (conj F2 (conj F3 (conj F4 (conj F5 F6)))))))))).
+Qed.
+
+
+(* "for each optional system call, failure with ENOSYS from the first OR FROM THE k-TH CALL": the fault space of
+   wf_scenario contains, for eventfd2 / eventfd, failure from the k-th creation on for every k >= 0 (k = 0: from the
+   first call).  Made explicit: whatever the rest of a well-formed scenario, its fault record may be replaced by one in
+   which eventfd2 and/or eventfd are missing and take effect after any number k of successful creations, the result
+   is again well-formed, and therefore all core theorems (here: the whole behavioural monitor, the raw-event
+   clauses of C09, the guard monitor, no crash) hold for it.  The kernel really behaves that way: the first k
+   creations succeed, every later one fails with ENOSYS. *)
+Definition with_efd_cut (sc : scenario) (no2 no1 : bool) (k : Z) : scenario :=
+  {| sc_backend := sc_backend sc;
+     sc_faults := {| no_pwait2 := no_pwait2 (sc_faults sc); perm_pwait2 := perm_pwait2 (sc_faults sc);
+                     no_timerfd := no_timerfd (sc_faults sc); no_ppoll := no_ppoll (sc_faults sc);
+                     no_eventfd2 := no2; no_eventfd := no1; no_create1 := no_create1 (sc_faults sc);
+                     emfile := emfile (sc_faults sc); eintr_waits := eintr_waits (sc_faults sc);
+                     eintr_ctl := eintr_ctl (sc_faults sc); efd_ok := k |};
+     sc_limit := sc_limit sc; sc_setup := sc_setup sc; sc_handlers := sc_handlers sc; sc_wait := sc_wait sc;
+     sc_rot := sc_rot sc |}.
+
+Theorem C15_faults_from_kth_call :
+  (forall sc no2 no1 k, wf_scenario sc -> 0 <= k -> wf_scenario (with_efd_cut sc no2 no1 k)) /\
+  (forall sc no2 no1 k, wf_scenario sc -> 0 <= k ->
+     let sc' := with_efd_cut sc no2 no1 k in
+     mon_all (run_scenario sc') = true /\
+     mon_C09 (run_scenario sc') = true /\ mon_guard sc' (run_scenario sc') = true /\
+     ~ In TCrash (run_scenario sc') /\ ~ In TFatal (run_scenario sc')) /\
+  (* the virtual kernel: with eventfd missing after k creations, creation number n succeeds iff n < k
+     (descriptor exhaustion aside) *)
+  (forall kn flags2, emfile (flt kn) = false -> no_eventfd (flt kn) = true ->
+     (nefd kn < efd_ok (flt kn) -> exists fd, snd (k_eventfd kn flags2) = inl fd /\ nefd (fst (k_eventfd kn flags2)) = nefd kn + 1) /\
+     (efd_ok (flt kn) <= nefd kn -> k_eventfd kn flags2 = (kn, inr ENOSYS))).
+Proof.
+  assert (WF : forall sc no2 no1 k, wf_scenario sc -> 0 <= k -> wf_scenario (with_efd_cut sc no2 no1 k)).
+  { intros sc no2 no1 k [W1 W2 W3 W4 W5 W6 W7 W8] K. constructor; cbn; assumption. }
+  split; [exact WF|]. split.
+  - intros sc no2 no1 k W K sc'. pose proof (WF sc no2 no1 k W K) as W'. fold sc' in W'.
+    split; [apply core_mon_all; exact W'|]. split; [apply CorePhase2TimeC09.core_mon_C09; exact W'|].
+    split; [apply core_gmon_all; exact W'|]. apply CoreInv.core_no_crash. exact W'.
+  - intros kn flags2 EM NE. unfold k_eventfd, efd_cut. rewrite EM, NE. cbn [orb]. split.
+    + intros L. replace (efd_ok (flt kn) <=? nefd kn) with false by (symmetry; apply Z.leb_gt; exact L). cbn [andb].
+      unfold k_alloc. cbn. eexists. split; reflexivity.
+    + intros L. replace (efd_ok (flt kn) <=? nefd kn) with true by (symmetry; apply Z.leb_le; exact L). reflexivity.
+Qed.
+Print Assumptions C15_faults_from_kth_call.
+
+(* non-vacuity of the k-th-call fault: eventfd2 / eventfd fail after ONE creation (efd_ok := 1).  Raw event 0 is
+   registered before the cut (eventfd-backed: one descriptor), raw event 1 after it (pipe-backed: two descriptors);
+   both are posted before iv_main and again from outside during the second wait; every post is delivered (each
+   handler runs twice), each object is unregistered from its handler (1 + 2 closes, plus the epoll descriptor under
+   the epoll methods), the run ends normally and the tracker and the guard monitor are silent -- on all four
+   methods (vm_compute in Core/CoreExamples.v). *)
+Example C15_kth_call_nonvacuous :
+  forall be, In be [0; 1; 2; 3] ->
+    let tr := run_scenario (ex_cut be) in
+    wf_scenario (ex_cut be) /\ efd_ok (sc_faults (ex_cut be)) = 1 /\ no_eventfd (sc_faults (ex_cut be)) = true /\
+    count_ev (is_raw_call 0) tr = 2%nat /\ count_ev (is_raw_call 1) tr = 2%nat /\
+    In (TKClose (ex_cut_base be)) tr /\ In (TKClose (ex_cut_base be + 1)) tr /\ In (TKClose (ex_cut_base be + 2)) tr /\
+    count_ev is_close tr = (if be <? 2 then 4%nat else 3%nat) /\
+    In (TEnd 0 0) tr /\ In (TDone 0) tr /\ ~ In THang tr /\
+    mon_fails tr = [] /\ gmon_fails (ex_cut be) tr = [].
+Proof.
+  intros be H tr.
+  assert (Hb : 0 <= be <= 3) by (cbn [In] in H; intuition lia).
+  pose proof (ex_cut_runs be H) as R. cbv zeta in R. fold tr in R.
+  destruct R as (R1 & R2 & R3 & R4 & R5 & R6 & R7 & R8 & R9 & _ & R11 & R12 & R13).
+  exact (conj (ex_cut_wf be Hb) (conj R1 (conj eq_refl (conj R2 (conj R3 (conj R4 (conj R5 (conj R6 (conj R7
+          (conj R8 (conj R9 (conj R11 (conj R12 R13))))))))))))).
 Qed.
